@@ -12,7 +12,7 @@
 
    The body is a list of steps against the hub (create a row / update a column
    of the row with an id / delete the row with an id / raise) executed through
-   an eager two-column class; Cls.get(id) of a row not yet in the
+   an eager class with columns a, b and a UNIQUE column u; Cls.get(id) of a row not yet in the
    transaction's cache SELECTs it (not-found if absent).  Database: as in
    Model/Txn.v -- one committed table; a transaction's first write takes
    sqlite's write lock until its commit/rollback; a write while another
@@ -37,12 +37,20 @@ Inductive bstep :=
 | BErase (id : Z)                          (* p.destroySelf() on such an instance: DELETE through the transaction; the
                                               transaction's cache entry of that id, if any, is purged *)
 | BDeleteMany (id : Z)                     (* Cls.deleteMany(Cls.q.id == id): a class-level DELETE, no instance involved *)
+(* steps on the third column u, which is UNIQUE (the steps above leave it NULL / alone).  A statement that would make two rows
+   carry the same non-NULL u is refused by the database (DuplicateEntryError): nothing is written, but the statement was sent --
+   inside a transaction it has taken the write lock, and everything the transaction did before stays.  guard = true: the body
+   catches that exception and carries on (try: ... except DuplicateEntryError: pass); guard = false: it propagates *)
+| BCreateU (guard : bool) (a b u : val)    (* Cls(a=, b=, u=) *)
+| BUpdateU (guard : bool) (id : Z) (u : val)   (* o = Cls.get(id); o.u = u *)
+| BWriteU (guard : bool) (id : Z) (u : val)    (* p.u = u on an instance loaded before the call *)
 | BFail (n : nat).                         (* raise the n-th exception object of the program *)
 
 Inductive hexc :=
 | XUser (n : nat)         (* raised by the body itself *)
 | XNotFound               (* SQLObjectNotFound from get *)
 | XLocked                 (* OperationalError: database is locked *)
+| XDuplicate              (* DuplicateEntryError: the UNIQUE column *)
 | XNoConnection           (* AttributeError: the hub has nothing for this thread *)
 | XNested.                (* outside the model: the slot already held a Transaction *)
 
@@ -119,6 +127,8 @@ Definition get_ok (v : table) (cached : list Z) (id : Z) : bool :=
 Definition add_id (id : Z) (l : list Z) : list Z := if mem_z id l then l else l ++ [id].
 Definition remove_id (id : Z) (l : list Z) : list Z := filter (fun x => negb (x =? id)) l.
 
+Definition ucol : nat := 2.              (* the UNIQUE column *)
+
 (* one scheduling step of thread t *)
 Definition tick (g : gst) (t : nat) : gst :=
   let ts := thread g t in
@@ -143,7 +153,7 @@ Definition tick (g : gst) (t : nat) : gst :=
       | BFail n => exit_raise g t old is_thr (XUser n) k
       | BCreate a b =>
           if locked_by_other g t then exit_raise g t old is_thr XLocked k
-          else let '(id, v') := tbl_insert [a; b] v in go v' (add_id id cached) (created ++ [id])
+          else let '(id, v') := tbl_insert [a; b; None] v in go v' (add_id id cached) (created ++ [id])
       | BUpdate id c x =>
           if negb (get_ok v cached id) then exit_raise g t old is_thr XNotFound k
           else if locked_by_other g t then exit_raise g t old is_thr XLocked k
@@ -161,6 +171,22 @@ Definition tick (g : gst) (t : nat) : gst :=
       | BDeleteMany id =>
           if locked_by_other g t then exit_raise g t old is_thr XLocked k
           else go (tbl_delete id v) cached created
+      | BCreateU gd a b u =>
+          if locked_by_other g t then exit_raise g t old is_thr XLocked k
+          else if clash ucol v None u then
+                 (if gd then go v cached created else exit_raise g t old is_thr XDuplicate k)
+          else let '(id, v') := tbl_insert [a; b; u] v in go v' (add_id id cached) (created ++ [id])
+      | BUpdateU gd id u =>
+          if negb (get_ok v cached id) then exit_raise g t old is_thr XNotFound k
+          else if locked_by_other g t then exit_raise g t old is_thr XLocked k
+          else if upd_clash ucol v id u then
+                 (if gd then go v (add_id id cached) created else exit_raise g t old is_thr XDuplicate k)
+          else go (tbl_update id ucol u v) (add_id id cached) created
+      | BWriteU gd id u =>
+          if locked_by_other g t then exit_raise g t old is_thr XLocked k
+          else if upd_clash ucol v id u then
+                 (if gd then go v cached created else exit_raise g t old is_thr XDuplicate k)
+          else go (tbl_update id ucol u v) cached created
       end
   end.
 
@@ -174,7 +200,7 @@ Fixpoint body_run (v : table) (cached : list Z) (steps : list bstep) (k : nat) (
   | [] => (Return created, v)
   | BFail n :: _ => (Raised (XUser n) k, v)
   | BCreate a b :: rest =>
-      let '(id, v') := tbl_insert [a; b] v in body_run v' (add_id id cached) rest (S k) (created ++ [id])
+      let '(id, v') := tbl_insert [a; b; None] v in body_run v' (add_id id cached) rest (S k) (created ++ [id])
   | BUpdate id c x :: rest =>
       if get_ok v cached id then body_run (tbl_update id c x v) (add_id id cached) rest (S k) created
       else (Raised XNotFound k, v)
@@ -184,6 +210,17 @@ Fixpoint body_run (v : table) (cached : list Z) (steps : list bstep) (k : nat) (
   | BWrite id c x :: rest => body_run (tbl_update id c x v) cached rest (S k) created
   | BErase id :: rest => body_run (tbl_delete id v) (remove_id id cached) rest (S k) created
   | BDeleteMany id :: rest => body_run (tbl_delete id v) cached rest (S k) created
+  | BCreateU gd a b u :: rest =>
+      if clash ucol v None u then (if gd then body_run v cached rest (S k) created else (Raised XDuplicate k, v))
+      else let '(id, v') := tbl_insert [a; b; u] v in body_run v' (add_id id cached) rest (S k) (created ++ [id])
+  | BUpdateU gd id u :: rest =>
+      if get_ok v cached id then
+        if upd_clash ucol v id u then (if gd then body_run v (add_id id cached) rest (S k) created else (Raised XDuplicate k, v))
+        else body_run (tbl_update id ucol u v) (add_id id cached) rest (S k) created
+      else (Raised XNotFound k, v)
+  | BWriteU gd id u :: rest =>
+      if upd_clash ucol v id u then (if gd then body_run v cached rest (S k) created else (Raised XDuplicate k, v))
+      else body_run (tbl_update id ucol u v) cached rest (S k) created
   end.
 Definition body_result (v : table) (body : list bstep) : result := fst (body_run v [] body 0 []).
 Definition body_table (v : table) (body : list bstep) : table := snd (body_run v [] body 0 []).
@@ -232,7 +269,13 @@ Definition plain_step (g : gst) (t : nat) (st : bstep) : gst * result :=
       | None =>
           let v := g_committed g in
           match st with
-          | BCreate a b => let '(id, v') := tbl_insert [a; b] v in (with_gcommitted g v', Return [id])
+          | BCreate a b => let '(id, v') := tbl_insert [a; b; None] v in (with_gcommitted g v', Return [id])
+          | BCreateU gd a b u =>
+              if clash ucol v None u then (with_gcommitted g v, if gd then Return [] else Raised XDuplicate 0)
+              else let '(id, v') := tbl_insert [a; b; u] v in (with_gcommitted g v', Return [id])
+          | BWriteU gd id u =>
+              if upd_clash ucol v id u then (with_gcommitted g v, if gd then Return [] else Raised XDuplicate 0)
+              else (with_gcommitted g (tbl_update id ucol u v), Return [])
           | BWrite id c x => (with_gcommitted g (tbl_update id c x v), Return [])
           | BErase id => (with_gcommitted g (tbl_delete id v), Return [])
           | BDeleteMany id => (with_gcommitted g (tbl_delete id v), Return [])
